@@ -67,6 +67,8 @@ unsafe impl<T: IoBufMut, S: AsFd> OpCode for Read<T, S> {
             slice.ptr() as _,
             slice.len().try_into().unwrap_or(u32::MAX),
         )
+        // -1: read / write at the file's current position and advance it
+        .offset(u64::MAX)
         .build()
         .into()
     }
@@ -102,6 +104,8 @@ unsafe impl<T: IoVectoredBufMut, S: AsFd> OpCode for ReadVectored<T, S> {
             control.slices.as_ptr() as _,
             control.slices.len().try_into().unwrap_or(u32::MAX),
         )
+        // -1: read / write at the file's current position and advance it
+        .offset(u64::MAX)
         .build()
         .into()
     }
@@ -117,6 +121,8 @@ unsafe impl<T: IoBuf, S: AsFd> OpCode for Write<T, S> {
             slice.as_ptr(),
             slice.len().try_into().unwrap_or(u32::MAX),
         )
+        // -1: read / write at the file's current position and advance it
+        .offset(u64::MAX)
         .build()
         .into()
     }
@@ -135,6 +141,8 @@ unsafe impl<T: IoVectoredBuf, S: AsFd> OpCode for WriteVectored<T, S> {
             control.slices.as_ptr() as _,
             control.slices.len().try_into().unwrap_or(u32::MAX),
         )
+        // -1: read / write at the file's current position and advance it
+        .offset(u64::MAX)
         .build()
         .into()
     }
